@@ -29,6 +29,8 @@
 #include <sys/socket.h>
 #include <sys/epoll.h>
 #include <netinet/in.h>
+#include <netdb.h>
+#include <semaphore.h>
 #include "serverloop_kernel.h"
 
 typedef int (*clock_gettime_fn)(clockid_t, struct timespec*);
@@ -39,6 +41,9 @@ typedef int (*epoll_wait_fn)(int, struct epoll_event*, int, int);
 typedef int (*accept4_fn)(int, struct sockaddr*, socklen_t*, int);
 typedef int (*connect_fn)(int, const struct sockaddr*, socklen_t);
 typedef int (*getsockopt_fn)(int, int, int, void*, socklen_t*);
+typedef ssize_t (*write_fn)(int, const void*, size_t);
+typedef int (*getaddrinfo_fn)(const char*, const char*, const struct addrinfo*, struct addrinfo**);
+typedef void (*freeaddrinfo_fn)(struct addrinfo*);
 
 static clock_gettime_fn real_clock_gettime;
 static send_fn real_send;
@@ -48,6 +53,9 @@ static epoll_wait_fn real_epoll_wait;
 static accept4_fn real_accept4;
 static connect_fn real_connect;
 static getsockopt_fn real_getsockopt;
+static write_fn real_write;
+static getaddrinfo_fn real_getaddrinfo;
+static freeaddrinfo_fn real_freeaddrinfo;
 
 static void resolve()
 {
@@ -60,6 +68,9 @@ static void resolve()
   real_accept4 = (accept4_fn)dlsym(RTLD_NEXT, "accept4");
   real_connect = (connect_fn)dlsym(RTLD_NEXT, "connect");
   real_getsockopt = (getsockopt_fn)dlsym(RTLD_NEXT, "getsockopt");
+  real_write = (write_fn)dlsym(RTLD_NEXT, "write");
+  real_getaddrinfo = (getaddrinfo_fn)dlsym(RTLD_NEXT, "getaddrinfo");
+  real_freeaddrinfo = (freeaddrinfo_fn)dlsym(RTLD_NEXT, "freeaddrinfo");
   if(!real_clock_gettime || !real_send || !real_recv || !real_epoll_ctl || !real_epoll_wait || !real_accept4 || !real_connect || !real_getsockopt) {
     fprintf(stderr, "simulated kernel: dlsym failed\n"); abort();
   }
@@ -233,9 +244,60 @@ extern "C" int epoll_ctl(int epfd, int op, int fd, struct epoll_event* ev)
   return rc;
 }
 
+// ---- hooks for the real-kernel (two-thread) rounds ------------------------------------------------
+static volatile long wait_entries = 0, lookups_done = 0;
+static __thread int stall_mode = 0, stall_usec = 0;
+static sem_t lookup_sem; static int lookup_sem_init = 0; static volatile int lookup_ok = 0;
+struct OurAi { struct addrinfo ai; struct sockaddr_in sin; };
+
+extern "C" void slk_thread_stall(int mode, int usec) { stall_mode = mode; stall_usec = usec; }
+extern "C" long slk_wait_entries(void) { return __sync_add_and_fetch(&wait_entries, 0); }
+extern "C" long slk_lookups_done(void) { return __sync_add_and_fetch(&lookups_done, 0); }
+static void lookup_init() { if(!lookup_sem_init) { sem_init(&lookup_sem, 0, 0); lookup_sem_init = 1; } }
+extern "C" void slk_lookup_release(int ok) { lookup_init(); lookup_ok = ok; __sync_synchronize(); sem_post(&lookup_sem); }
+
+extern "C" ssize_t write(int fd, const void* data, size_t n)
+{
+  resolve();
+  if(fd != evfd || evfd < 0 || !stall_mode)
+    return real_write(fd, data, n);
+  if(stall_mode == 2) usleep((useconds_t)stall_usec);
+  ssize_t r = real_write(fd, data, n);
+  if(stall_mode == 1) usleep((useconds_t)stall_usec);
+  return r;
+}
+
+extern "C" int getaddrinfo(const char* node, const char* service, const struct addrinfo* hints, struct addrinfo** res)
+{
+  resolve();
+  if(!node || strcmp(node, "verif.test") != 0)
+    return real_getaddrinfo(node, service, hints, res);
+  lookup_init();
+  while(sem_wait(&lookup_sem) != 0) {}
+  int ok = lookup_ok;
+  int rc = EAI_NONAME;
+  if(ok) {
+    OurAi* o = (OurAi*)calloc(1, sizeof(OurAi));
+    o->sin.sin_family = AF_INET; o->sin.sin_addr.s_addr = htonl(0x7f000001);
+    o->ai.ai_family = AF_INET; o->ai.ai_socktype = SOCK_STREAM; o->ai.ai_addrlen = sizeof(o->sin); o->ai.ai_addr = (struct sockaddr*)&o->sin;
+    o->ai.ai_flags = 0x56455249;   // marks the block as ours for freeaddrinfo
+    *res = &o->ai; rc = 0;
+  }
+  __sync_add_and_fetch(&lookups_done, 1);
+  return rc;
+}
+
+extern "C" void freeaddrinfo(struct addrinfo* ai)
+{
+  resolve();
+  if(ai && ai->ai_flags == 0x56455249 && ai->ai_addr == (struct sockaddr*)&((OurAi*)ai)->sin) { free(ai); return; }
+  real_freeaddrinfo(ai);
+}
+
 extern "C" int epoll_wait(int epfd, struct epoll_event* events, int maxevents, int timeout)
 {
   resolve();
+  __sync_add_and_fetch(&wait_entries, 1);
   if(!armed)
     return real_epoll_wait(epfd, events, maxevents, timeout);
   emitf("wait %d", timeout);
@@ -324,7 +386,7 @@ extern "C" int accept4(int fd, struct sockaddr* addr, socklen_t* len, int flags)
 extern "C" int connect(int fd, const struct sockaddr* addr, socklen_t len)
 {
   resolve();
-  if(!armed || !connect_mode)
+  if(!connect_mode)
     return real_connect(fd, addr, len);
   errno = EINPROGRESS;
   return -1;
